@@ -9,7 +9,6 @@ NA = {
  "C04": "External product / CMux selects m1*m2 within noise: polynomial arithmetic and noise magnitudes, run-time numeric facts.",
  "C05": "Tensor/relinearise/plain/constant multiplication scaling: torus positions from convolution offsets are run-time integer arithmetic.",
  "C07": "DFT/NTT-domain products bit-equal to exact convolution: floating-point error and lazy modular reduction budgets are numeric ranges no structural rule bounds.",
- "C08": "Normalisation/shift/encoding exactness to one unit in the last limb: carry arithmetic over all radix pairs and offsets (its 'other columns untouched' clause is the generic column rule reported under C11).",
  "C14": "Blind rotation returns the table entry at the mod-switched index: index/drift/sign arithmetic and homomorphic noise.",
  "C15": "End-to-end encrypted integer pipeline (bootstrap, re-preparation, noise growth); its table-function and operation-to-table binding clause is decided under C13, its threading clause under C20.",
 }
@@ -56,6 +55,11 @@ CLAIMS = {
          "DESIGN.md §3 C02 and C09, §8",
          "Trusted: per-limb kernels compute the ring map.",
          "shared limb-coverage / column analysis restricted to the C09 files + sibling verdict comparison", True),
+ "C08": ("other",
+         "Only the structure of the carry chains of C08 is decided, on MIR of the normalisation / shift shape functions (small and big accumulators, FFT64 and NTT120 families): the final normalisation step closes a chain (NRM-1); the carry buffer is initialised before a middle / final step reads it on every feasible path, zero-trip loops and single-limb cases included (WR-6); a right shift passes the carry through exactly size(operand) + steps normalisation steps for every operand size, result size and shift - a piecewise-linear identity over the loop trip counts, so that the carry out of the top limb lands on the right limb also when the shift exceeds the precision of the result (NRM-2); every limb of the selected result column is produced and no other column is addressed (WR-1/WR-2 on the C08 files); the AVX step kernels apply the digit / carry helpers per lsh branch as often as their reference twins (BK-6). Digit arithmetic, rounding, balanced digits, cross-radix accumulation and integer encoding / decoding are not decided.",
+         "DESIGN.md §8 (C08), §9 rows 17, 20, 53",
+         "Trusted: the step kernels compute balanced digit / carry; this is a thin, clause-scoped claim (three carry-chain defects of the shift family were found and repaired through these rules).",
+         "MIR typestate of carry buffers + piecewise-linear identity over loop trip counts + limb/column coverage", True),
  "C02": ("other",
          "Only the shape clause of C02 is decided: result columns of the noise-free GLWE operations are all written (COL-1, over every rank assignment of a grid), the underlying shape functions cover every limb and honour columns (WR-1/WR-2 on the C02 files), each in-place variant uses the in-place twins of its out-of-place sibling's HAL operations (SIB-1), and the operand-sign discipline of the add/sub families holds for mixed ranks (SIGN-1), the in-place negating forms visit every column of the result (COL-1), read operands are indexed within their own rank (COL-2) and limb-wise two-operand operations compare the radices of the objects they move limbs between (COL-3), the carry chain of every right shift has size(operand) + steps steps for all sizes and shifts (NRM-2, piecewise-linear identity over loop trip counts) and carry buffers are written before they are read (WR-6). Phase linearity is arithmetic and not decided.",
          "DESIGN.md §3 C02 and C09, §8",
